@@ -228,10 +228,22 @@ type vtpl struct{ t *template.Template }
 
 func symConcat(parts []value) value {
 	allConc := true
+	smt := false
 	for _, p := range parts {
-		if isSym(p) {
+		if isSymAny(p) {
 			allConc = false
 		}
+		if isSym(p) {
+			smt = true
+		}
+	}
+	if !allConc && !smt {
+		var out []value
+		for _, p := range parts {
+			b, _ := strBytes(p)
+			out = append(out, b...)
+		}
+		return mkStr(out)
 	}
 	if allConc {
 		var sb strings.Builder
@@ -272,13 +284,12 @@ func symAtoi(fr *frame, a []value) value {
 	if !r.branch(isNum) {
 		return tuple{0, fr.i.mkErr(&verr{msg: "strconv.Atoi: parsing: invalid syntax", wrap: errSyntax})}
 	}
-	v := r.declare("atoi", 'i')
-	// value relation through the Int domain
-	r.addPC(fmt.Sprintf("(let ((body (ite (or (str.prefixof \"-\" %[1]s) (str.prefixof \"+\" %[1]s)) (str.substr %[1]s 1 (- (str.len %[1]s) 1)) %[1]s))) (and (<= (str.len body) 18) (= %[2]s (ite (str.prefixof \"-\" %[1]s) (- (str.to_int body)) (str.to_int body)))))",
-		x.term, bvToInt(v.term)))
-	if st, _ := r.Z.Check("", nil); st != "sat" {
+	body := fmt.Sprintf("(ite (or (str.prefixof \"-\" %[1]s) (str.prefixof \"+\" %[1]s)) (str.substr %[1]s 1 (- (str.len %[1]s) 1)) %[1]s)", x.term)
+	if !r.branch(symv{'b', "(<= (str.len " + body + ") 18)"}) {
 		r.inconclusive("Atoi of a symbolic string longer than 18 digits is not modelled")
 	}
+	mag := "((_ int2bv 64) (str.to_int " + body + "))"
+	v := symv{'i', fmt.Sprintf("(ite (str.prefixof \"-\" %s) (bvneg %s) %s)", x.term, mag, mag)}
 	return tuple{v, iface{}}
 }
 
@@ -339,26 +350,21 @@ func symReplace(fr *frame, s, old, new value, n int) value {
 	return symConcat(j)
 }
 
-// symTrimSpace: forks on leading/trailing ASCII white space, one character at a time.
+// symTrimSpace: the result r is characterised without forking: s = a ++ r ++ b with a, b
+// white space only and r neither starting nor ending with white space (unique solution).
 func symTrimSpace(fr *frame, a []value) value {
 	r := fr.i.R
-	cur, _ := toTerm(a[0])
+	s, _ := toTerm(a[0])
 	ws := "(re.union (str.to_re \" \") (str.to_re \"\\u{9}\") (str.to_re \"\\u{a}\") (str.to_re \"\\u{d}\") (str.to_re \"\\u{b}\") (str.to_re \"\\u{c}\"))"
-	for k := 0; k < 16; k++ {
-		lead := symv{'b', fmt.Sprintf("(and (> (str.len %s) 0) (str.in_re (str.at %s 0) %s))", cur, cur, ws)}
-		if !r.branch(lead) {
-			break
-		}
-		cur = fmt.Sprintf("(str.substr %s 1 (- (str.len %s) 1))", cur, cur)
-	}
-	for k := 0; k < 16; k++ {
-		trail := symv{'b', fmt.Sprintf("(and (> (str.len %s) 0) (str.in_re (str.at %s (- (str.len %s) 1)) %s))", cur, cur, cur, ws)}
-		if !r.branch(trail) {
-			break
-		}
-		cur = fmt.Sprintf("(str.substr %s 0 (- (str.len %s) 1))", cur, cur)
-	}
-	return symv{'s', cur}
+	pre := r.declare("trim.pre", 's')
+	res := r.declare("trim.res", 's')
+	suf := r.declare("trim.suf", 's')
+	r.addPC(fmt.Sprintf("(= %s (str.++ %s %s %s))", s, pre.term, res.term, suf.term))
+	r.addPC(fmt.Sprintf("(str.in_re %s (re.* %s))", pre.term, ws))
+	r.addPC(fmt.Sprintf("(str.in_re %s (re.* %s))", suf.term, ws))
+	r.addPC(fmt.Sprintf("(not (str.in_re %s (re.++ %s re.all)))", res.term, ws))
+	r.addPC(fmt.Sprintf("(not (str.in_re %s (re.++ re.all %s)))", res.term, ws))
+	return res
 }
 
 // ---- fmt ----
@@ -374,6 +380,11 @@ func fmtVerb(fr *frame, verb byte, flags string, a value) value {
 		}
 	}
 	switch x := v.(type) {
+	case symstr:
+		if verb == 'q' {
+			return byteModels["strconv.Quote"](fr, []value{x})
+		}
+		return x
 	case symv:
 		switch x.k {
 		case 's':
